@@ -186,7 +186,7 @@ func checkVersionMatrix(c *fw.Ctx, rule string, fields map[string]bool) *version
 					short = short[i+2:] // the method name of a method expression
 				}
 				exported := len(short) > 0 && short[0] >= 'A' && short[0] <= 'Z'
-				if len(bwd[got]) != 1 || (got != exp && (expNames[got] || exported || c.P.Func(strings.TrimPrefix(exp, "gmsl.")) != nil)) {
+				if len(bwd[got]) != 1 || (got != exp && (expNames[got] || exported || (c.P.Func(strings.TrimPrefix(exp, "gmsl.")) != nil && !forwardsTo(c.P.Func(strings.TrimPrefix(exp, "gmsl.")), got)))) {
 					okAll = false
 				}
 				m[exp] = got
@@ -747,6 +747,17 @@ func checkBuildFormats(c *fw.Ctx) {
 					}
 				}
 			}
+			if !ok {
+				// other spellings of the same guard (2 != f negated, a switch, a stage loop): read the
+				// path condition instead of the dominating If
+				conds := condsOf(call.Block())
+				if strings.Contains(conds, ".EventFormat(") && !strings.Contains(conds, "EventIDFormat(") && eventFormat2Guard(conds) {
+					ok = true
+				} else if blockInLoop(call.Block()) {
+					c.Undecided(rule, "Build deletes event_id only under eventFormat == EventFormatV2", "the deletion sits in a loop over build stages; its guard was not read")
+					continue
+				}
+			}
 			c.Check(ok, rule, "Build deletes event_id only under eventFormat == EventFormatV2", c.P.Pos(call.Pos()), "", "the event_id deletion is not guarded by the event format test")
 		}
 	}
@@ -850,4 +861,47 @@ func checkGrammarRegexps(c *fw.Ctx, rule string) {
 		}
 	}
 	c.Min(rule+" identifier patterns", n, 2)
+}
+
+// forwardsTo: old is a one-call forwarder to the function rendered as `got` (a name kept for
+// callers and tests after the body moved).
+func forwardsTo(old *ssa.Function, got string) bool {
+	if old == nil || len(old.Blocks) != 1 {
+		return false
+	}
+	calls := fw.Calls(old)
+	if len(calls) != 1 || fw.CalleeName(calls[0]) != got {
+		return false
+	}
+	_, isRet := old.Blocks[0].Instrs[len(old.Blocks[0].Instrs)-1].(*ssa.Return)
+	return isRet
+}
+
+// eventFormat2Guard: a rendered path condition requires the event format to be 2 (either operand
+// order, either polarity of the comparison).
+func eventFormat2Guard(conds string) bool {
+	for _, f := range []string{") == 2)", "(2 == (", "!(2 != (", "!= 2)"} {
+		i := strings.Index(conds, f)
+		if i < 0 {
+			continue
+		}
+		if f == "!= 2)" {
+			// must be negated: find the atom start
+			j := strings.LastIndex(conds[:i], "!(")
+			k := strings.LastIndex(conds[:i], "&& ")
+			if j < 0 || j < k {
+				continue
+			}
+		}
+		if f == "(2 == (" || f == ") == 2)" {
+			// must not be negated
+			k := strings.LastIndex(conds[:i], "&& ")
+			atom := conds[k+1 : i]
+			if strings.Contains(atom, "!(") && f == ") == 2)" && strings.HasPrefix(strings.TrimSpace(conds[k+2:]), "!(") {
+				continue
+			}
+		}
+		return true
+	}
+	return false
 }
